@@ -1004,6 +1004,43 @@ theorem joinBody_rows (x y : Table) (cols : List String) (mode : Mode) (ms : Lis
   simp only [joinBody, joinTableOf, expand_eq_map, keyRows_eq_map, List.map_map, Function.comp_def,
     List.append_assoc]
 
+/-! ### `dict(zip(names, columns))` with distinct names is the list itself -/
+
+theorem dictSet_fresh {α} (d : List (String × α)) (k : String) (v : α) (h : k ∉ d.map (·.1)) :
+    dictSet d k v = d ++ [(k, v)] := by
+  unfold dictSet
+  rw [if_neg]
+  intro hc
+  apply h
+  simp only [List.any_eq_true, beq_iff_eq] at hc
+  obtain ⟨c, hc, rfl⟩ := hc
+  exact List.mem_map.2 ⟨c, hc, rfl⟩
+
+theorem dictOf_foldl_nodup {α} : ∀ (kvs acc : List (String × α)),
+    (acc.map (·.1) ++ kvs.map (·.1)).Nodup →
+    kvs.foldl (fun d kv => dictSet d kv.1 kv.2) acc = acc ++ kvs := by
+  intro kvs
+  induction kvs with
+  | nil => intro acc _; simp
+  | cons kv rest ih =>
+    intro acc h
+    simp only [List.foldl_cons]
+    have hk : kv.1 ∉ acc.map (·.1) := by
+      intro hm
+      have := (List.nodup_append.1 h).2.2 _ hm kv.1 (by simp)
+      exact this rfl
+    rw [dictSet_fresh _ _ _ hk, ih]
+    · simp
+    · simpa [List.map_append, List.append_assoc] using h
+
+theorem dictOf_nodup {α} (kvs : List (String × α)) (h : (kvs.map (·.1)).Nodup) : dictOf kvs = kvs := by
+  have := dictOf_foldl_nodup kvs [] (by simpa using h)
+  simpa [dictOf] using this
+
+theorem zipIdx_map_fst {α β} (f : α × Nat → β) (l : List α) (n : Nat) :
+    ((l.zipIdx n).map fun p => (p.1, f p)).map (·.1) = l := by
+  simp [List.map_map, Function.comp_def]
+
 /-! ### xor, mode 'r' (the rows of the right table without a partner) -/
 
 @[simp] theorem xorEmit1_onL (a : Grp) : (xorEmit 1).onL a = [] := rfl
